@@ -11,6 +11,7 @@ import (
 	"pgregory.net/rapid"
 	"verif/internal/cmutil"
 	"verif/internal/findings"
+	"verif/internal/gen"
 	"verif/internal/harness"
 	"verif/internal/htmlnorm"
 	"verif/internal/model"
@@ -281,13 +282,64 @@ func genCode(t *rapid.T) harness.Case {
 
 const rule = "abstract documents (G4: paragraphs, ATX/setext headings, thematic breaks, fenced/indented code, HTML blocks, reference definitions, quotes, tight/loose bullet and ordered lists; text with escapes and character references, breaks, emphasis, code spans, inline/reference links, images, autolinks, raw tags) x serializer choices (markers, fence characters and lengths, indentation 0-3, 1-4 spaces after list markers, tab-spelled structural indentation, lazy continuation, LF/CRLF/CR, final newline, escaping style, destination/title delimiters, line endings inside links); oracle = expected HTML computed from the abstract tree, compared in the O3 form; non-trivial = container depth >= 2, a multi-line inline construct inside a container, tab-spelled indentation or a non-LF line ending"
 
+var rendererVocabulary = map[string]bool{"p": true, "h1": true, "h2": true, "h3": true, "h4": true, "h5": true, "h6": true, "pre": true, "code": true, "blockquote": true,
+	"ul": true, "ol": true, "li": true, "em": true, "strong": true, "a": true, "img": true, "br": true, "hr": true}
+
+// specExamples: the 652 examples of the spec, compared in the O3 form (which,
+// unlike the repository's own normalizer, keeps white space inside text).
+// Examples whose expected HTML is not in the renderer's own vocabulary (raw
+// HTML) cannot be tokenized strictly and are counted as skipped.
+func specExamples(t *testing.T, plan harness.Plan) {
+	if harness.Cfg().Shard != 0 {
+		return
+	}
+	const name = "spec_examples"
+	for _, ex := range gen.Spec {
+		exp := strings.ReplaceAll(ex.HTML, " />", ">")
+		toks, err := htmlnorm.Tokenize(exp, nil)
+		foreign := false
+		for _, tk := range toks {
+			if (tk.Kind == htmlnorm.Start || tk.Kind == htmlnorm.End) && !rendererVocabulary[tk.Name] {
+				foreign = true
+			}
+		}
+		if err != nil || foreign {
+			harness.Label(name, "skipped_expected_html_has_raw_html", 1)
+			continue
+		}
+		want := htmlnorm.Normalize(toks)
+		blocks, refs := cm.Parse([]byte(ex.Markdown))
+		var sb strings.Builder
+		cm.RenderHTML(&sb, blocks, refs)
+		got, gerr := htmlnorm.NormalizeString(sb.String(), nil)
+		c := harness.Case{In: []byte(ex.Markdown)}
+		c.SetS("expected", exp)
+		c.SetI("nontrivial", 1)
+		harness.CountRaw(name, uint64(ex.Example), true, func() string { return fmt.Sprintf("example %d (%s): %q", ex.Example, ex.Section, ex.Markdown) })
+		if gerr != nil || got != want {
+			err := fmt.Errorf("spec example %d (%s): rendering differs\n source:   %q\n output:   %q\n expected: %q", ex.Example, ex.Section, ex.Markdown, sb.String(), ex.HTML)
+			if harness.Fail(t, plan, name, c, err) {
+				return
+			}
+		}
+	}
+	harness.SetExhaustive(name, "all 652 examples of the CommonMark 0.30 specification whose expected HTML uses only the renderer's vocabulary")
+}
+
 func TestProperty(t *testing.T) {
-	harness.Run(t, harness.Plan{Prop: "C06", Suppress: findings.Suppressor("C06"), Checks: []harness.Check{
+	plan := plan()
+	plan.After = func(t *testing.T) { specExamples(t, plan) }
+	harness.Run(t, plan)
+}
+
+func plan() harness.Plan {
+	return harness.Plan{Prop: "C06", Suppress: findings.Suppressor("C06"), Checks: []harness.Check{
 		{Name: "model", Quick: 40000, Thorough: 500000, Gen: genDoc(model.Small), Prop: prop, Rule: rule},
 		{Name: "escape_all", Quick: 40000, Thorough: 400000, Gen: genEscape, Prop: prop,
 			Rule: "a random text over letters, digits, non-ASCII and all 32 ASCII punctuation characters with every punctuation character backslash-escaped, as a paragraph, ATX heading, setext heading, link text and title, emphasis content and a list item inside a quote; expected = exactly that text; non-trivial = the text has punctuation"},
 		{Name: "code_verbatim", Quick: 40000, Thorough: 400000, Gen: genCode, Prop: prop,
 			Rule: "arbitrary lines (markdown syntax, leading spaces, fence-like runs, tabs) as the content of fenced and indented code blocks at the top level, in a quote, in list items, in a list in a quote and after a paragraph in an item, under LF/CRLF/CR; expected = the lines byte for byte"},
 		{Name: "model_large", Quick: 5000, Thorough: 80000, Gen: genDoc(model.Large), Prop: prop, Rule: "larger size bounds (depth 5, 7 blocks per container, 8 inlines per run): " + rule},
-	}})
+		{Name: "spec_examples", Prop: prop, Rule: "every example of the 0.30 spec whose expected HTML has no raw HTML, compared in the O3 form (white space inside text is significant)"},
+	}}
 }
